@@ -1041,6 +1041,45 @@ def evaluate_concrete(v, env):
         return None
 
 
+def cond_at(e, env):
+    """Truth value of an undetermined condition at concrete values of its atoms; None when it cannot be computed."""
+    if isinstance(e, Unk):
+        return cond_at(e.expr, env)
+    if isinstance(e, bool):
+        return e
+    if not (isinstance(e, tuple) and e):
+        return None
+    if e[0] == 'not':
+        r = cond_at(e[1], env)
+        return None if r is None else not r
+    if e[0] in ('and', 'or'):
+        x, y = cond_at(e[1], env), cond_at(e[2], env)
+        if x is None or y is None:
+            return None
+        return (x and y) if e[0] == 'and' else (x or y)
+    if e[0] == 'cmp' and e[1] in _CMP:
+        va, vb = evaluate_concrete(e[2], env), evaluate_concrete(e[3], env)
+        ca = concrete_real(va) if va is not None else None
+        cb = concrete_real(vb) if vb is not None else None
+        if ca is None or cb is None:
+            return None
+        return _CMP[e[1]](ca, cb)
+    return None
+
+
+def resolve_at(v, env):
+    """The branch of a (nested) guarded choice taken at concrete values of the atoms its conditions read - a witness that
+    this branch is feasible.  Returns (value, [conditions decided]) or None when a condition cannot be computed."""
+    seen = []
+    while isinstance(v, Choice):
+        r = cond_at(v.cond, env)
+        if r is None:
+            return None
+        seen.append((repr(v.cond)[:120], r))
+        v = v.a if r else v.b
+    return v, seen
+
+
 def offset_depends_on_point(d, xnames):
     """Witness that `d` (= point - x) is not one value for all x: its values at x = 3 and at |x| = 10^200 or 10^400 (every
     other atom at 2^-10).  None when no witness is found (d may still be constant in x: undecided)."""
